@@ -473,6 +473,67 @@ def check(ctx):
                      "%s sorts its input before hashing, but %s emits in input order: reordering the items changes the output without changing the digest" % (hname, cname)))
         else:
             r1.ok("%s/%s: order sensitivity agrees (digest sorted=%s, emission sorted=%s)" % (hname, cname, hs, cs))
+    # a digest input that is hashed under a condition (`flag.then_some(cmd.line_number)`) is hashed exactly when the output that shows it is
+    # produced: followed back through captures and parameters to the configuration getter that also enables the reader, the condition carries
+    # an even number of negations
+    def parity(g, o, depth=8):
+        """-> (root text or None, number of negations on the way)"""
+        neg = 0
+        while depth > 0:
+            depth -= 1
+            if o[0] == "un" and o[1] == "Not":
+                neg += 1
+                o = o[2]
+                continue
+            if o[0] == "proj":
+                base = o
+                projs = []
+                while base[0] == "proj":
+                    projs = list(base[2]) + projs
+                    base = base[1]
+                cap = [pj for pj in projs if isinstance(pj, str) and pj.startswith("(closure).")]
+                if base[0] == "arg" and base[1] == 1 and cap and "::{closure" in g.id:
+                    idx = int(cap[0].split(".")[1])
+                    par = P.fns.get(g.parent) if getattr(g, "parent", None) else None
+                    nxt = None
+                    for h in ([par] if par is not None else []):
+                        for b in sorted(h.reach_blocks):
+                            for st in h.blocks[b]["stmts"]:
+                                rv = st.get("rv") or {}
+                                if rv.get("k") == "aggr" and rv.get("closure") == g.id and idx < len(rv.get("ops", [])):
+                                    nxt = (h, h.origin(rv["ops"][idx]))
+                    if nxt is None:
+                        return None, neg
+                    g, o = nxt
+                    continue
+                if all(pj == "deref" for pj in projs):
+                    o = base
+                    continue
+                return None, neg
+            if o[0] == "ref" and len(o) > 1 and isinstance(o[1], tuple):
+                o = o[1]
+                continue
+            if o[0] == "arg" and "::{closure" not in g.id:
+                sites = [(h, c) for h in P.fns.values() for c in h.calls if c.bb in h.reach_blocks and c.best == g.id]
+                if len(sites) != 1 or o[1] - 1 >= len(sites[0][1].args):
+                    return None, neg
+                g, c = sites[0]
+                o = g.origin(c.args[o[1] - 1])
+                continue
+            if o[0] == "call":
+                return short_path(o[1].best), neg
+            return None, neg
+        return None, neg
+    n_cond = 0
+    for hk in sorted(k for k in P.fns if re.search(r"GenerationCache::hash_\w+$", k)):
+        for g_, c in P.find_call_sites(hk, lambda c_: c_.name in ("then_some", "then") and "bool" in (c_.path + (c_.self_ty or ""))):
+            n_cond += 1
+            root, neg = parity(g_, g_.origin(c.args[0]))
+            if root is not None and neg % 2 == 1:
+                r1.bad(V(r1.id, hk, "conditional-digest-input-negated:%s" % root, "%s hashes a value only when `%s` is false: the value reaches the digest exactly in the runs "
+                         "whose output does not show it, and is left out in the runs whose output does" % (short_path(hk), root), c.file, c.line))
+            else:
+                r1.ok("%s: conditional digest input follows %s (%d negations)" % (short_path(hk), root or "an untraced flag", neg))
     # hashed values really reach the compared digest
     r1b = Rule("C08-D1-digest-plumbing", "D1",
                "no *HashData field is skipped by serde; combine_hashes receives the three digests; needs_regeneration compares combined_hash "
